@@ -20,6 +20,7 @@ EXPLANATION = (
 EXPLANATION_ADDED = '(R7) after a successful credit take every success path of the caller builds a Push (no credit without a frame).'
 EXPLANATION = EXPLANATION + " Added while testing against seeded changes: " + EXPLANATION_ADDED
 EXPLANATION = EXPLANATION + ' Rounds 12-13: R3 also requires the initial credit to be the advertised window itself (moves / conversions only, no min / max / arithmetic); R4 likewise for the inbound queue capacity, the windows advertised in Connect / the handshake Acknowledge and the rwnd fields.'
+EXPLANATION = EXPLANATION + ' Rounds 14-15: (R8) one Push frame = one entry of the inbound queue (reaction-table cells Push/*); R5 rejects an acknowledged count that passes a narrowing cast; (S9) Frame::new_acknowledge / new_connect are exact.'
 ASSUMPTIONS = [
     "tokio mpsc channels are FIFO and bounded as documented; atomic RMW operations are atomic",
     "the two endpoints run the same code (conforming peer)",
